@@ -58,11 +58,35 @@ def get_spec(it, st, fr):
     root, k = loop_key(it, st, fr)
     if k is None:
         return None
+    assigned, mutated = modified_names(st.body)
+    written = set(assigned) | set(mutated)
+
+    def fits(v):
+        return not getattr(v, "havoc", None) or set(v.havoc) <= written
+
     if root == c.qualname.split(".<locals>.")[0] or root == c.qualname:
         sp = c.loops.get(k)
-        if sp is not None:
+        if sp is not None and fits(sp):
             return sp
-    return c.loops.get((root, k))
+        if sp is not None or k is not None:
+            # the loops of the function were renumbered (one was moved out or in): take the loop contract that talks about
+            # the variables this loop writes, if there is exactly one
+            cands = [v for kk, v in c.loops.items() if isinstance(kk, int) and getattr(v, "havoc", None) and set(v.havoc) <= written]
+            if len(cands) == 1:
+                return cands[0]
+            if sp is not None:
+                return sp
+    sp = c.loops.get((root, k))
+    if sp is not None:
+        return sp
+    # a loop of the contract's function that a refactoring moved into a helper (executed here because it has no contract of
+    # its own): adopt the one loop contract whose havocked variables are exactly what this loop writes.  A wrong guess can
+    # only break inv.init / inv.step, i.e. leave the proof undecided - those kinds never become a violation by themselves.
+    if root != c.qualname and root != c.qualname.split(".<locals>.")[0]:
+        cands = [v for v in c.loops.values() if getattr(v, "havoc", None) and set(v.havoc) <= written]
+        if len(cands) == 1:
+            return cands[0]
+    return None
 
 
 def modified_names(body):
